@@ -89,12 +89,14 @@ IsAp(o) == "ap" \in DOMAIN o \/ "alt" \in DOMAIN o
 CacheHas(cache, f, a) == \E i \in 1..Len(cache) : cache[i].f = f /\ cache[i].a = a
 CacheGet(cache, f, a) == cache[CHOOSE i \in 1..Len(cache) : cache[i].f = f /\ cache[i].a = a].v
 
+InvalidTypeText == S("Tried to perform an operation on a value with an invalid type")
 ScriptEntry(fn, n) == fn.script[IF n <= Len(fn.script) THEN n ELSE Len(fn.script)]
 \* the result of the n-th invocation of fn on arg
 FnResult(fn, arg, n) ==
   LET r == ScriptEntry(fn, n) IN
   CASE r.r = "v" -> Ok(r.v)
     [] r.r = "fail" -> FnErr(fn.name, r.msg)
+    [] r.r = "failtype" -> FnErr(fn.name, InvalidTypeText)     \* fails with a library error value as its error
     [] r.r = "counter" -> Ok(I(n))
     [] r.r = "echo" -> Ok(arg)
     [] r.r = "tagged" -> Ok(VVec(<<arg, I(n)>>))
